@@ -197,6 +197,44 @@ def batch(rng, budget, deep, replay=None, only=None):
             res['distinct_nontrivial'] += 1
             if not res['samples']:
                 res['samples'].append(dict(cls=path, n=n, point=A[i].tolist() if e.dim > 1 else float(A[i]), t=t))
+            # the same points at a much later time first, then at t — compared with a fresh object asked for the
+            # points moved by a relative 1e-12 (a memo keyed by the points, at module, class or object level, is
+            # hit by the former and not by the latter; seeded C18-6)
+            if not tol and name != 'Mader':
+                try:
+                    s3 = c(*(e.args() if e.args else ()), **kw)
+                    P3 = e.points(rng, max(e.min_n, 3))
+                    late = None
+                    for fac in (40.0, 10.0, 1.0 / 40.0):
+                        try:
+                            s3(P3, t * fac)
+                            late = fac
+                            break
+                        except Exception:
+                            pass
+                    if late is not None:
+                        early = s3(P3, t)
+                        ref = c(*(e.args() if e.args else ()), **kw)(P3 * (1.0 + 1e-12), t)
+                        res['evaluations'] += 1
+                        for nm in names[e.dim:]:
+                            a_, b_ = np.asarray(early[nm]), np.asarray(ref[nm])
+                            if a_.dtype.kind not in 'fc' or b_.dtype.kind not in 'fc':
+                                continue
+                            sc = float(np.nanmax(np.abs(b_))) if b_.size else 0.0
+                            bad = [k_ for k_ in range(len(a_)) if not (abs(a_[k_] - b_[k_]) <= 1e-7 * max(abs(b_[k_]), sc, 1e-300)
+                                                                       or (np.isnan(a_[k_]) and np.isnan(b_[k_])))]
+                            if bad:
+                                site = '%s:history-late-early' % name
+                                if site not in sites:
+                                    sites.add(site)
+                                    res['failures'].append(dict(
+                                        site=site, detail='field %s: %r after the same points were requested at t x %g first, %r from a fresh '
+                                                          'object at points moved by 1e-12' % (nm, a_[bad[0]], late, b_[bad[0]]),
+                                        case=dict(cls=path, kind='late-then-early', t=t,
+                                                  point=P3[bad[0]].tolist() if e.dim > 1 else float(P3[bad[0]]))))
+                                break
+                except Exception:
+                    pass
             # the same points given as an integer array and as a float array (ExactSolver.__call__ only does
             # numpy.asarray, so an integer grid reaches _run as integers): same values
             if not tol and name != 'Mader':
@@ -324,6 +362,7 @@ def history(rng, budget, deep, replay=None):
     must = [p for p in usable if p.split(':')[1] in ('SuOlson', 'Rmtv', 'ED_Solver', 'ie_Solver', 'nED_Solver')]
     pool = []
     calls = []
+    last = {}
     nops = 40 if deep else 16
     with warnings.catch_warnings(), _quiet(), np.errstate(all='ignore'):
         warnings.simplefilter('ignore')
@@ -341,17 +380,33 @@ def history(rng, budget, deep, replay=None):
             e = catalog.entry(path)
             pts = e.points(rng, max(e.min_n, rng.randint(1, 4)))
             t = e.t(rng)
+            reuse = False
+            if path in last and rng.random() < 0.5:
+                # the same points again at a time far from the previous one (a memo keyed by the points —
+                # seeded C18-6 — only shows when a late time comes first and an early one follows)
+                pts, t_prev = last[path]
+                t = t_prev * rng.choice([1.0 / 40.0, 1.0 / 10.0, 10.0, 40.0])
+                reuse = True
             try:
                 sol = obj(pts, t)
             except Exception:
                 continue
+            last[path] = (pts, t)
             calls.append(dict(cls=path, kwargs={a: (b if isinstance(b, (int, float, str, bool, list)) else None)
                                                 for a, b in kw.items()},
-                              points=pts.tolist(), t=t, got={n: _bits(sol[n]) for n in sol.dtype.names}, step=k))
+                              points=pts.tolist(), t=t, got={n: _bits(sol[n]) for n in sol.dtype.names}, step=k, reuse=reuse))
     nsub = min(len(calls), 10 if deep else 4)
-    picks = rng.sample(calls, nsub) if replay is None else [replay]
+    if replay is None:
+        pref = [c_ for c_ in calls if c_.get('reuse')]
+        rng.shuffle(pref)
+        rest = [c_ for c_ in calls if not c_.get('reuse')]
+        rng.shuffle(rest)
+        picks = (pref[:max(1, nsub // 2)] + rest)[:nsub]
+    else:
+        picks = [replay]
     for job in picks:
         got = job.pop('got', None)
+        job.pop('reuse', None)
         p = subprocess.run([sys.executable, '-c', CHILD % dict(tools=os.path.join(lean_io.ROOT, 'tools')), json.dumps(job)],
                            capture_output=True, text=True, timeout=600)
         line = [l for l in p.stdout.split('\n') if l.startswith('RESULT ')]
@@ -408,6 +463,10 @@ def two_instances(rng, budget, deep, replay=None):
                     b(Q, t)
                 r2 = a(P, t)                      # after another instance was built and used
                 try:
+                    rq_now = a(Q, t)              # other points at the time just served (a memo keyed by t; seeded C06-2)
+                except Exception:
+                    rq_now = None
+                try:
                     a(Q, e.t(rng))                # ... and after it served a request at another time
                 except Exception:
                     pass
@@ -430,7 +489,8 @@ def two_instances(rng, budget, deep, replay=None):
                         res['failures'].append(dict(site=site, detail='attribute %s was modified in place by a call' % k_,
                                                     case=dict(cls=path, t=t)))
             tol = GRID_TOL.get(name, 0)
-            for kind, x, y in (('other-instance', r1, r2), ('used-object', rq, rq0)):
+            for kind, x, y in (('other-instance', r1, r2), ('used-object', rq, rq0)) + \
+                    ((('used-object', rq_now, rq0),) if rq_now is not None and len(rq_now) == len(rq0) else ()):
                 for nm in x.dtype.names:
                     bad = [k for k in range(len(x)) if not _same(x[nm][k], y[nm][k], 0 if kind == 'other-instance' else tol)]
                     if bad:
@@ -503,6 +563,48 @@ def r2d_fan_order(rng, budget, deep, replay=None):
                                     detail='pressure at (1, %.4g): %r in the ascending request, %r in the descending one (%d of %d points differ)'
                                            % (y[k], float(a[k]), float(b[k]), int(np.sum(d > 1e-9)), len(y)),
                                     case=dict(bottom_state=[1, 1, 10, 0, 1.4], top_state=[0.002, 0.01, 2.5, 0, 1.4], point=[1.0, float(y[k])])))
+    return res
+
+
+def guderley_batch(rng, budget, deep, replay=None):
+    """Guderley is too slow for the catalogue sweep of the quick tier; this asks one solver for a few points
+    before the collapse and after the reflection (two or more points behind the reflected shock in one
+    request), in the given order, reversed, with a duplicate, and alone"""
+    from exactpack.solvers.guderley import Guderley
+    res = dict(evaluations=0, distinct_nontrivial=0, failures=[], samples=[])
+    case = replay.get('case') if replay else None
+    gamma, geom = (case['gamma'], case['geometry']) if case else (3.0, rng.choice([2, 3]))     # gamma = 3 solves in half a second; 1.4 takes minutes
+    with warnings.catch_warnings(), _quiet(), np.errstate(all='ignore'):
+        warnings.simplefilter('ignore')
+        s = Guderley(gamma=gamma, geometry=geom)
+        for t in (1.0 + 0.5 * rng.random(), -0.5):
+            r = np.array(sorted(rng.uniform(0.05, 0.95) for _ in range(5)))
+            if case:
+                t, r = case['t'], np.array(case['r'])
+            a = s(r, t)
+            forms = [('reversed', s(r[::-1].copy(), t), lambda k: len(r) - 1 - k),
+                     ('duplicated', s(np.concatenate([r[:1], r]), t), lambda k: k + 1)]
+            for k in (1, 3):
+                forms.append(('alone', s(r[k:k + 1], t), (lambda kk: (lambda k_: 0 if k_ == kk else None))(k)))
+            res['evaluations'] += 1 + len(forms)
+            res['distinct_nontrivial'] += 1
+            if not res['samples']:
+                res['samples'].append(dict(gamma=gamma, geometry=geom, t=t, r=r.tolist()))
+            for kind, b, idx in forms:
+                for nm in a.dtype.names:
+                    for k in range(len(r)):
+                        j = idx(k)
+                        if j is None:
+                            continue
+                        if not _same(a[nm][k], b[nm][j], 1e-9):
+                            if not res['failures']:
+                                res['failures'].append(dict(
+                                    site='Guderley:batch',
+                                    detail='field %s at r=%r, t=%r: %r in the request as given, %r in the %s request'
+                                           % (nm, float(r[k]), t, float(a[nm][k]), float(b[nm][j]), kind),
+                                    case=dict(gamma=gamma, geometry=geom, t=t, r=r.tolist())))
+            if case:
+                break
     return res
 
 
